@@ -862,6 +862,22 @@ pub fn gen_srv(rng: &mut Rng, count: u64, tier: &str) -> Vec<String> {
             out.push(format!("srv {flags} 0 {bare} q0:{}:F;q1:{}:UP100_3;{probe}", hex(&req(2, b"fw.bin", &[("blksize".to_string(), "1024".to_string())])), hex(&req(2, b"second.bin", &[]))));
         }
     }
+    // an upload that announced its size (tsize) and is aborted by its client: removed, or kept as the (empty) prefix -
+    // never as a file of the announced length
+    for flags in ["-", "k", "sk", "dk", "ok"] {
+        for ts in ["700", "70000"] {
+            let t = vec![("tsize".to_string(), ts.to_string())];
+            let tb = vec![("blksize".to_string(), "1024".to_string()), ("tsize".to_string(), ts.to_string())];
+            out.push(format!("srv {flags} 0 {tree} q0:{}:E;q1:{}:F;{probe}", hex(&req(2, b"sized.bin", &t)), hex(&req(2, b"sub/sized2.bin", &tb))));
+        }
+    }
+    // windows of more than 64 KiB of payload on a file long enough to fill them: the first burst is the acknowledged window
+    for flags in ["-", "s"] {
+        for (b, w) in [("1024", "80"), ("1428", "64"), ("512", "200"), ("8192", "9")] {
+            let o = vec![("blksize".to_string(), b.to_string()), ("windowsize".to_string(), w.to_string())];
+            out.push(format!("srv {flags} 0 {tree} q0:{}:D;{probe}", hex(&req(1, b"huge", &o))));
+        }
+    }
     // a symbolic link to a served file: its size is the file's
     {
         let linked = format!("{tree},l:{}:{}", hex(b"srv/link.txt"), hex(b"a.txt"));
